@@ -25,8 +25,22 @@ class C04(WigBedProp):
             o["bs"] = r.choice([2, 3])
             o["reader"] = r.choice(["plain", "cached", "fresh", "freshcached"])
             names = bbgen.free_chrom_order(r, names, o, tags)
+            past = None
+            if k % 6 == 3:
+                # an entry that reaches PAST the declared chromosome length (legal: only a start at or beyond the length is refused) and
+                # queries that lie beyond the length but inside that entry
+                nm = names[k % len(names)]
+                i_ = r.below(len(data[nm]))
+                e0 = data[nm][i_]
+                data[nm] = data[nm][:i_] + [(e0[0], sizes[nm] + r.choice([30, 400, 1000]), e0[2])] + data[nm][i_ + 1:]
+                past = (nm, data[nm][i_][1])
+                tags.add("entry_reaches_past_the_chromosome_end")
             lines = [bbgen.opt_line(o)] + bbgen.bed_lines(names, sizes, data)
             lines += bbgen.gen_queries(r, names, sizes, data, ["iv"], r.range(6, 10), ips=o["ips"], strict_nonempty=True)
+            if past:
+                nm, pe = past
+                L = sizes[nm]
+                lines += [f"Q iv {nm} {L} {pe}", f"Q iv {nm} {L + 1} {L + 2}", f"Q iv {nm} {pe - 1} {pe}", f"Q iv {nm} {pe} {pe + 5}", f"Q iv {nm} {L - 1} {L + 1}"]
             if "max_end_not_last" in tags:
                 tags.add("nt")
             out.append(CaseT(f"q{k}", "bed", [], lines, self.common_tags(o, names, data, tags)))
